@@ -50,6 +50,18 @@ CHECKS = {
  "C13": dict(cat="exploration", tech="differential monitor: Parse+Resolve of the real library in CPU/memory-limited worker processes vs apparmor_parser -D expanded-variables on the same generated preamble",
    text="3000 / 100000 generated cycle-free preambles (comments, abi before/after, 1-6 variables, += anywhere after the definition, nested and repeated references, alternations, //) plus error strata (undefined, self-reference, += self-reference, second definition; cycles of length 2-3 one per process): same value sets per variable and attachment as the reference parser, same accept/reject, no panic, no hang, and every comment/abi/include/alias entry and every definition kept.",
    note="Trusted: apparmor_parser's own expansion (variables referenced from a stub profile so that it evaluates them); '//' collapsed on both sides; expansion sizes bounded to 200 values.", ref="5 C13"),
+ "C12": dict(cat="translation_validation", tech="translation validation: text printed by the real library vs the harness's canonical rendering of the same fields, both compiled by apparmor_parser (bytes, then automata equivalence)",
+   text="Texts printed by the real library for single rules of the 14 AppArmor-3 kinds, blocks after Merge+Sort+Format, rules built from generated log records and the expansions of every distinct shipped dbus/exec directive are (a) shown to apparmor_parser for acceptance and (b) compiled against the harness's own plain rendering of the same rule fields: equal bytes => same meaning, else equivalence of every dumped automaton plus capability/network/rlimit dump lines. A rejection is only excused (out of domain) when the canonical rendering of the same fields is rejected too and the fields were generated, not produced by the tool itself.",
+   note="Trusted: the canonical printer in vlib/rulegen.py, apparmor_parser 3.0.8. programs = text pairs judged, disagreements_checked = pairs whose two texts differ beyond white space (decided by compilation).", ref="5 C12"),
+ "C14": dict(cat="exploration", tech="offline history checker: uniquely tagged records written to generated log files, the real aa-log binary run in every mode, reported events matched back to input records",
+   text="300 / 6000 generated log files (audit, syslog and journald JSON framings; records of every class mixed with STATUS records, foreign, blank, garbled and truncated lines, journald binary/boot entries, repeats up to timestamp and pid, ALLOWED/DENIED twins, noise paths, extra keys; at most one hostile trigger per file: 64 KiB+-1 / 1 MiB line, invalid UTF-8, no final newline) x {default, -R, -r} x {no filter, profile, prefix, no match}: every expected record reported exactly once and in input order, nothing else reported, exit status 0, identical bytes on a second run.",
+   note="Trusted: the record model (what is a repeat, what is noise: only unmistakable noise paths are generated). Truncated records may or may not be shown.", ref="5 C14"),
+ "C15": dict(cat="exploration", tech="field-level monitor on logs.New in the worker: generated kernel-style records (encoder keeps the field values) vs the maps the real library returns",
+   text="20000 / 300000 generated records with spaces, '=', '#', ',', UTF-8, tab and backslash in values, kernel hex encoding vs quoting, hex-looking quoted values and shuffled field order, many records per call and several calls per process with malformed records in between: every key of the map returned for a record must carry that record's own value (name/comm/profile decoded to the original bytes), a distinctive path component must survive generalisation, no key may come from another record, and every well-formed record must be found.",
+   note="Trusted: the kernel-style encoder in vlib/logsgen.py; profile/name/target may be generalised (whether the result still matches is C16's question).", ref="5 C15"),
+ "C16": dict(cat="exploration", tech="coverage monitor: generated records through the real logs.New -> ParseToProfiles -> Merge -> Sort -> Format, emitted path patterns matched against the recorded names by apparmor_parser's own automaton",
+   text="8000 / 100000 generated well-formed records of every mapped class (names from home, system, /proc, /sys, /run, udev, pci, uuid/hex/number/arch-bearing and blank-bearing paths; 1-40 records per profile; one-field variants of earlier records) must each be covered by a printed rule of the right kind and qualifier; for file, link and mount-family records the emitted pattern must accept the recorded name: `P r,` and `P r, literal(name) r,` compile to the same bytes over the shipped tunables, a miss is confirmed by simulating the dumped automaton.",
+   note="Trusted: apparmor_parser 3.0.8 + the tunables of a real build; peers are matched by a simple glob model.", ref="5 C16"),
 }
 REASONS = {}
 props = [json.loads(l) for l in open(os.path.join(V, "properties.jsonl"))]
